@@ -16,6 +16,10 @@
  *   (ADDRXLAT_ERR_NODATA with its "No ... callback" message left in this very context,
  *   no implementation ran), "?<status>" otherwise.
  *
+ *   line "C <op>...": a history on one context that interleaves reads through the read cache with
+ *   layer operations: R<as>:<addr> (a memory-array translation step reading 8 bytes), + (add a layer
+ *   that overrides nothing), -<pos> (delete the added layer at position pos, newest = 0); output
+ *   "<status>:<value>" per R, then "gets= puts= double= unput=" after the context is destroyed.
  *   line "L <n> <ostype|-> <dump file> <kvaddr>...": a dump object with n empty layers stacked on its
  *   translation context before the file is opened; prints attributes, reads and hook answers (see below).
  *   line "K <dump file>": the translation context of a kdump_ctx_t that has the file open; the answers of all seven hooks before
@@ -106,6 +110,117 @@ static void seven(addrxlat_ctx_t *ctx)
 	}
 }
 
+/* ---- cache histories ("C" lines): a base layer whose get_page hands out counted copies of
+ * synthetic regions (the function of Hist/ReadCache.synth_get_page); put_page poisons the copy
+ * and marks it released, so that a read after the put or a second put is visible ---- */
+struct cpage { unsigned char *data; size_t size; int released; };
+#define MAXCP 4096
+static struct cpage cpages[MAXCP];
+static int ncp;
+static unsigned long c_gets, c_puts, c_double;
+
+static void c_put_page(const addrxlat_buffer_t *buf)
+{
+	struct cpage *p = buf->priv;
+	if (p->released) { ++c_double; return; }
+	memset(p->data, 0xdd, p->size);
+	p->released = 1;
+	++c_puts;
+}
+
+static addrxlat_status c_get_page(const addrxlat_cb_t *cb, addrxlat_buffer_t *buf)
+{
+	uint64_t a = buf->addr.addr, base, size, blk, i;
+	unsigned as = (unsigned)buf->addr.as;
+	struct cpage *p;
+	if (a < 0x10000 || a >= 0xfffffffffffff000ULL) {
+		blk = a / 0x1000;
+		if (blk % 8 == 5) return ADDRXLAT_ERR_NODATA;
+		base = blk * 0x1000; size = 0x1000;
+	} else {
+		blk = a / 0x100;
+		if (blk % 8 == 3) return ADDRXLAT_ERR_NODATA;
+		base = blk * 0x100; size = 0x100;
+	}
+	if (ncp >= MAXCP) return ADDRXLAT_ERR_NOMEM;
+	p = &cpages[ncp++];
+	p->data = malloc(size); p->size = size; p->released = 0;
+	for (i = 0; i < size; ++i)
+		p->data[i] = (unsigned char)(((base + i) * 13 + (uint64_t)as * 3 + 1) & 0xff);
+	++c_gets;
+	buf->addr.addr = base;
+	buf->size = size;
+	buf->ptr = p->data;
+	buf->byte_order = ADDRXLAT_LITTLE_ENDIAN;
+	buf->put_page = c_put_page;
+	buf->priv = p;
+	return ADDRXLAT_OK;
+}
+
+static unsigned long c_read_caps(const addrxlat_cb_t *cb)
+{
+	return ADDRXLAT_CAPS(ADDRXLAT_KPHYSADDR) | ADDRXLAT_CAPS(ADDRXLAT_MACHPHYSADDR) |
+		ADDRXLAT_CAPS(ADDRXLAT_KVADDR);
+}
+
+static void cache_history(char *line)
+{
+	addrxlat_ctx_t *ctx = addrxlat_ctx_new();
+	addrxlat_cb_t *base, *added[MAXL];
+	int nadded = 0, i;
+	char *save = NULL, *tok;
+	ncp = 0; c_gets = c_puts = c_double = 0;
+	base = addrxlat_ctx_add_cb(ctx);
+	base->get_page = c_get_page;
+	base->read_caps = c_read_caps;
+	strtok_r(line, " ", &save);
+	for (tok = strtok_r(NULL, " ", &save); tok; tok = strtok_r(NULL, " ", &save)) {
+		if (tok[0] == '+') {
+			if (nadded < MAXL) {
+				/* newest first, like the model's stack */
+				memmove(added + 1, added, nadded * sizeof added[0]);
+				added[0] = addrxlat_ctx_add_cb(ctx);
+				++nadded;
+			}
+		} else if (tok[0] == '-') {
+			int pos = atoi(tok + 1);
+			if (pos < nadded) {
+				addrxlat_ctx_del_cb(ctx, added[pos]);
+				memmove(added + pos, added + pos + 1, (nadded - pos - 1) * sizeof added[0]);
+				--nadded;
+			}
+		} else if (tok[0] == 'R') {
+			/* one translation step that reads 8 bytes at <as>:<addr>: a memory-array method
+			 * with shift 0, element size 1, value size 8 and base <as>:0 */
+			unsigned as; unsigned long long addr;
+			addrxlat_meth_t meth;
+			addrxlat_step_t step;
+			addrxlat_status st;
+			if (sscanf(tok + 1, "%x:%llx", &as, &addr) != 2) { printf("? "); continue; }
+			memset(&meth, 0, sizeof meth);
+			meth.kind = ADDRXLAT_MEMARR;
+			meth.target_as = ADDRXLAT_MACHPHYSADDR;
+			meth.param.memarr.base.as = (addrxlat_addrspace_t)as;
+			meth.param.memarr.base.addr = 0;
+			meth.param.memarr.shift = 0;
+			meth.param.memarr.elemsz = 1;
+			meth.param.memarr.valsz = 8;
+			memset(&step, 0, sizeof step);
+			step.ctx = ctx; step.sys = NULL; step.meth = &meth;
+			step.base.addr = addr;
+			st = addrxlat_walk(&step);
+			printf("%d:%" PRIx64 " ", (int)st, st == ADDRXLAT_OK ? (uint64_t)step.base.addr : (uint64_t)0);
+			addrxlat_ctx_clear_err(ctx);
+		}
+	}
+	addrxlat_ctx_decref(ctx);	/* cleanup_cache: puts what the slots still hold */
+	{
+		unsigned long unput = 0;
+		for (i = 0; i < ncp; ++i) { if (!cpages[i].released) ++unput; free(cpages[i].data); }
+		printf("gets=%lu puts=%lu double=%lu unput=%lu\n", c_gets, c_puts, c_double, unput);
+	}
+}
+
 int main(int argc, char **argv)
 {
 	FILE *f = fopen(argv[1], "r");
@@ -116,6 +231,7 @@ int main(int argc, char **argv)
 		char *save = NULL, *tok;
 		addrxlat_ctx_t *ctx;
 		int nl = 0, first = 1, i;
+		if (line[0] == 'C') { cache_history(line); continue; }
 		if (line[0] == 'L') {
 			/* L <n> <ostype|-> <dump file> <kvaddr> ...: a dump object with n layers that
 			 * override nothing stacked on its translation context BEFORE the file is opened
